@@ -2,6 +2,9 @@ package main
 
 import (
 	"context"
+	"github.com/smart-core-os/sc-api/go/traits"
+	"google.golang.org/protobuf/types/known/timestamppb"
+	"strings"
 	"time"
 
 	"google.golang.org/protobuf/proto"
@@ -97,6 +100,8 @@ func runMasks() {
 		switch c.K {
 		case "upd":
 			runUpd(c, out)
+		case "names":
+			runNames(c, out)
 		case "proj":
 			runProj(c, out)
 		}
@@ -136,6 +141,7 @@ func runUpd(c maskCase, out *hx.Out) {
 	}
 	// 2. through Value.Set
 	{
+		var again *resource.Value
 		o := base
 		o.Via = "value"
 		o.Panic = hx.Catch(func() {
@@ -150,8 +156,28 @@ func runUpd(c maskCase, out *hx.Out) {
 				o.Res = mini.Abs(res)
 			}
 			o.Post = mini.Abs(v.Get())
+			again = v
 		})
 		out.Write(o)
+		// the same write once more on the same Value, this time without the extra writable fields: what one
+		// call was granted is not the resource's from then on
+		if again != nil && o.Panic == "" && !c.W.Nil && !c.W2.Nil && !c.AllW {
+			o2 := base
+			o2.Via = "value.again"
+			o2.Old, o2.Post = o.Post, o.Post
+			o2.W = mini.Mask{Paths: append([][]string{}, c.W.Paths...)}
+			c2 := c
+			c2.W2 = mini.Mask{Nil: true}
+			o2.Panic = hx.Catch(func() {
+				res, err := again.Set(mini.Conc(c.Wr), writeOpts(c2)...)
+				o2.Err = hx.Code(err)
+				if err == nil {
+					o2.Res = mini.Abs(res)
+				}
+				o2.Post = mini.Abs(again.Get())
+			})
+			out.Write(o2)
+		}
 	}
 	// 2b. through the first Value.Set of a Value that was given no initial value (nothing stored = the empty
 	// message as far as the masks are concerned)
@@ -281,6 +307,33 @@ func runProj(c maskCase, out *hx.Out) {
 		}
 		o.Post = mini.Abs(v.Get())
 	})
+	// a subscriber without a mask next to one with this mask: the projection is made for the masked one alone,
+	// the other still holds the whole value (judged as the nil-mask projection)
+	emit("value.pull.beside-masked", func(o *projObs) {
+		o.Mask = mini.Mask{Nil: true, Paths: [][]string{}}
+		v := resource.NewValue(resource.WithInitialValue(mini.Conc(mini.Empty())))
+		ctx, cancel := context.WithCancel(context.Background())
+		defer cancel()
+		a := v.Pull(ctx, resource.WithReadMask(fm), resource.WithBackpressure(true), resource.WithUpdatesOnly(true))
+		b := v.Pull(ctx, resource.WithBackpressure(true), resource.WithUpdatesOnly(true))
+		go func() { _, _ = v.Set(mini.Conc(c.Msg)) }()
+		var evB *resource.ValueChange
+		for _, ch := range []<-chan *resource.ValueChange{a, b} {
+			select {
+			case ev, ok := <-ch:
+				if !ok {
+					o.Res.X = append(o.Res.X, "<closed>")
+					return
+				}
+				evB = ev
+			case <-time.After(5 * time.Second):
+				o.Res.X = append(o.Res.X, "<timeout>")
+				return
+			}
+		}
+		o.Res = mini.Abs(evB.Value)
+		o.Post = mini.Abs(v.Get())
+	})
 	emit("collection.pull.update", func(o *projObs) {
 		// the update event's NEW value is the projection of the written message,
 		// its OLD value the projection of the previous one
@@ -347,4 +400,92 @@ func runProj(c maskCase, out *hx.Out) {
 		}
 		o.Post = c.Msg
 	})
+}
+
+// ---- field names of which one begins another's (spec/Masks.tla, GenNames) -------------------------------
+
+type nameVals struct {
+	St    int `json:"st"`
+	Stcts int `json:"stcts"`
+	Pc    int `json:"pc"`
+}
+type namesObs struct {
+	K     string    `json:"k"`
+	Via   string    `json:"via"`
+	M     mini.Mask `json:"M"`
+	W     mini.Mask `json:"W"`
+	Err   string    `json:"err"`
+	Old   nameVals  `json:"old"`
+	Post  nameVals  `json:"post"`
+	Panic string    `json:"panic"`
+}
+
+var occNames = map[string]string{"st": "state", "stct": "state_change_time", "s": "seconds", "pc": "people_count"}
+
+func occMask(m mini.Mask) *fieldmaskpb.FieldMask {
+	if m.Nil {
+		return nil
+	}
+	fm := &fieldmaskpb.FieldMask{}
+	for _, p := range m.Paths {
+		segs := make([]string, len(p))
+		for i, s := range p {
+			segs[i] = occNames[s]
+		}
+		fm.Paths = append(fm.Paths, strings.Join(segs, "."))
+	}
+	return fm
+}
+
+func occVals(o *traits.Occupancy) nameVals {
+	return nameVals{St: int(o.GetState()), Stcts: int(o.GetStateChangeTime().GetSeconds()), Pc: int(o.GetPeopleCount())}
+}
+
+func runNames(c maskCase, out *hx.Out) {
+	old := func() *traits.Occupancy {
+		return &traits.Occupancy{State: traits.Occupancy_OCCUPIED, StateChangeTime: &timestamppb.Timestamp{Seconds: 7}, PeopleCount: 3}
+	}
+	wr := func() *traits.Occupancy {
+		return &traits.Occupancy{State: traits.Occupancy_UNOCCUPIED, StateChangeTime: &timestamppb.Timestamp{Seconds: 9}, PeopleCount: 5}
+	}
+	base := namesObs{K: "names", M: c.M, W: c.W, Old: occVals(old()), Post: occVals(old())}
+	{
+		o := base
+		o.Via = "updater"
+		o.Panic = hx.Catch(func() {
+			u := masks.NewFieldUpdater(masks.WithUpdateMask(occMask(c.M)), masks.WithWritableFields(fieldmaskpb.Union(occMask(c.W), nil)))
+			src := wr()
+			err := u.Validate(src)
+			o.Err = hx.Code(err)
+			if err == nil {
+				dst := old()
+				u.Merge(dst, src)
+				o.Post = occVals(dst)
+			}
+		})
+		out.Write(o)
+	}
+	{
+		o := base
+		o.Via = "value"
+		o.Panic = hx.Catch(func() {
+			v := resource.NewValue(resource.WithInitialValue(old()), resource.WithWritableFields(occMask(c.W)))
+			_, err := v.Set(wr(), resource.WithUpdateMask(occMask(c.M)))
+			o.Err = hx.Code(err)
+			o.Post = occVals(v.Get().(*traits.Occupancy))
+		})
+		out.Write(o)
+	}
+	{
+		o := base
+		o.Via = "collection"
+		o.Panic = hx.Catch(func() {
+			col := resource.NewCollection(resource.WithInitialRecord("a", old()), resource.WithWritableFields(occMask(c.W)))
+			_, err := col.Update("a", wr(), resource.WithUpdateMask(occMask(c.M)))
+			o.Err = hx.Code(err)
+			got, _ := col.Get("a")
+			o.Post = occVals(got.(*traits.Occupancy))
+		})
+		out.Write(o)
+	}
 }
